@@ -73,12 +73,19 @@ def path_effects(f, path):
        ('d', place_tree, ty, b)                    drop terminator (elaborated: executes only if its flag is set)
     """
     out = []
+    pos = {}
+    for idx, b in enumerate(path):
+        pos.setdefault(b, idx)
     for ev in f.path_events(path):
         if ev[0] == 'assign':
             _, b, i, st = ev
             c = classify_write(f, b, i, st)
             if c:
-                out.append(('w', c[0], c[1], c[2], c[3] if len(c) > 3 else None, b, i))
+                val = c[3] if len(c) > 3 else None
+                if val is not None and peel(val)[0] == 'phi' and st['r']['k'] == 'use':
+                    # a merged value: take the definition executed on this very path
+                    val = f.expr_operand_on_path(st['r']['o'], path, pos.get(b, 0), i)
+                out.append(('w', c[0], c[1], c[2], val, b, i))
             elif not st['p']['pr'] and st['p']['l'] == 0:
                 out.append(('ret', f.expr_rvalue(st['r'], b, i), b, i))
         elif ev[0] == 'call':
@@ -280,6 +287,33 @@ def path_ret(f, path):
     return last
 
 
+VARIANT_PRESERVING = ('std::option::Option::map', 'std::option::Option::as_ref', 'std::option::Option::as_mut', 'std::option::Option::cloned',
+                      'std::option::Option::copied', 'std::option::Option::inspect', 'std::option::Option::as_deref', 'std::option::Option::as_deref_mut',
+                      'std::result::Result::map', 'std::result::Result::map_err', 'std::result::Result::as_ref', 'std::result::Result::as_mut',
+                      'std::result::Result::inspect', 'std::result::Result::inspect_err')
+
+
+def untry(a):
+    """normalise the subject of a variant test: `x?` tests `Try::branch(x)` (Continue/Break of an Option is Some/None of x, of a
+    Result Ok/Err); `x.map(f)`, `x.as_ref()` ... are in the same variant as x"""
+    for _ in range(6):
+        if not (a and a[0] == 'is' and a[1][0] == 'call' and a[1][2]):
+            return a
+        n = a[1][1]
+        if n.endswith('std::ops::Try>::branch'):
+            if 'Option' in n:
+                a = ('is', a[1][2][0], {'Continue': 'Some', 'Break': 'None'}.get(a[2], a[2]))
+                continue
+            if 'Result' in n:
+                a = ('is', a[1][2][0], {'Continue': 'Ok', 'Break': 'Err'}.get(a[2], a[2]))
+                continue
+        if n in VARIANT_PRESERVING:
+            a = ('is', a[1][2][0], a[2])
+            continue
+        return a
+    return a
+
+
 def call_outcomes(f, path, decs, callee):
     """for each dynamic call of `callee` on the path, the first decision taken on its result:
        list of (Site, variant-or-bool-or-None)"""
@@ -291,7 +325,7 @@ def call_outcomes(f, path, decs, callee):
                 out.append((pending, None))
             pending = ev[1]
         elif ev[0] == 'atom' and pending is not None:
-            a = ev[1]
+            a = untry(ev[1])
             if a[0] == 'is' and a[1][0] == 'call' and a[1][1] == pending.name:
                 out.append((pending, a[2])); pending = None
             elif a[0] == 'bool' and a[1][0] == 'call' and a[1][1] == pending.name:
